@@ -3,6 +3,8 @@
  lex   (CrossHair): class-strings through the real BasicLexer (sort, _create_unless, UnlessCallback, Scanner._build_mres/match,
        next_token) vs. refsem.lexref (documented order + keyword exception); str and bytes.
  many  (CrossHair): 130 terminals (forces Scanner._build_mres chunking); token-composed texts around the chunk boundary.
+ ctxref (CrossHair): lexer='contextual' parse vs. a reference that makes the documented choice restricted to the terminals the parser
+       (a fresh interactive LALR parser) can accept next; catches history dependence of the contextual lexer.
  ctx   (CrossHair): for grammars whose regexp terminals are pairwise disjoint (decided by z3), basic parse succeeds => contextual
        parse succeeds with an equal tree.
  L-kw  (z3): for every (string, regexp) terminal pair of equal priority: the string is in L(R) (z3, regex theory) <=> the real
@@ -68,8 +70,108 @@ if P and P.get('kind') == 'ctx':
     K = PART.K
 
 
+if P and P.get('kind') == 'ctxref':
+    from lark import Lark, Token
+    from lark.exceptions import UnexpectedInput, UnexpectedToken, UnexpectedCharacters
+    ENTRY = corpus.TXT[P['g']]
+    GRAMMAR = ENTRY['g']
+    L = P['L']
+    PIN = P.get('pin')
+    CTX = Lark(GRAMMAR.render(), parser='lalr', lexer='contextual')
+    REFPARSER = Lark(GRAMMAR.render(), parser='lalr', lexer='basic')      # only its parse table is used by the reference (fed token by token)
+    PART = alpha.partition(alpha.terminal_patterns(CTX))
+    REPS = PART.reps(hs.SEED)
+    K = PART.K
+    TERMS = lexref.from_lark(CTX)
+    TNAMES = {t.name for t in TERMS}
+    IGNORE = set(CTX.ignore_tokens)
+    CTX_LEX = {'kw': ['if', 'ab', '=', 'else', '7', 'ELSE', 'iff'], 'letx': ['let', 'x', '=', '1', 'le', 'lett']}.get(P['g'])
+    DOMAIN = P.get('domain', 'chars')
+    if DOMAIN == 'lexemes':
+        K = len(CTX_LEX)
+
+
+def _ref_contextual(text):
+    """Reference: at every position the documented choice restricted to the terminals the parser can accept next (plus ignored ones);
+    the parser is a fresh interactive LALR parser fed token by token. Returns ('tree', t) | ('error', pos)."""
+    ip = REFPARSER.parse_interactive()
+    state = {'allowed': None}
+
+    def allowed(pos, toks):
+        return {t for t in ip.choices() if t in TNAMES} | IGNORE
+    ordered = lexref.order(TERMS)
+    strs = [t for t in ordered if t.is_str]
+    pos = 0
+    last = None
+    n = len(text)
+    while pos < n:
+        ok = allowed(pos, None)
+        chosen = m = None
+        for t in ordered:
+            if t.name not in ok:
+                continue
+            m = t.rx.match(text, pos)
+            if m and m.end() > pos:
+                chosen = t
+                break
+        if chosen is None:
+            return ('error', pos)
+        value = m.group(0)
+        typ = chosen.name
+        if not chosen.is_str:
+            for s in strs:
+                if s.priority == chosen.priority and s.name in ok and s.rx.fullmatch(value):
+                    typ = s.name
+                    break
+        if typ not in IGNORE:
+            tok = Token(typ, value, pos)
+            try:
+                ip.feed_token(tok)
+            except UnexpectedToken:
+                return ('error', pos)
+            last = tok
+        pos = m.end()
+    try:
+        return ('tree', ip.feed_eof(last))
+    except UnexpectedToken:
+        return ('error', n if last is None else last.start_pos)
+
+
+def _ctxref_body(rec, cs):
+    if DOMAIN == 'lexemes':
+        idx = [hs.sel(c, K) for c in cs]
+        text = ' '.join(CTX_LEX[i] for i in idx)
+    else:
+        text = hs.class_string(cs, REPS)
+    got = None
+    try:
+        got = ('tree', CTX.parse(text))
+    except UnexpectedInput as e:
+        got = ('error', e.pos_in_stream)
+    with hs.untraced():
+        rec['key'] = text
+        rec['replay_args'] = [idx] if DOMAIN == 'lexemes' else [[PART.class_of[ord(ch)] for ch in text]]
+        want = _ref_contextual(text)
+        rec['nontrivial'] = want[0] == 'tree' and len(text) > 0
+        rec['count'] = {'texts': 1, 'accepted': int(want[0] == 'tree')}
+        if got[0] != want[0]:
+            return hs.fail(rec, 'lexer=contextual %s, reference (documented choice restricted to the acceptable terminals) %s' %
+                           ('accepts' if got[0] == 'tree' else 'rejects at %s' % got[1], 'accepts' if want[0] == 'tree' else 'rejects at %s' % want[1]), text=repr(text))
+        if got[0] == 'tree' and got[1] != want[1]:
+            return hs.fail(rec, 'lexer=contextual tree differs from the reference', text=repr(text), got=hs.plain(got[1]), want=hs.plain(want[1]))
+    return True
+
+
+def ctxref(cs: List[int]) -> bool:
+    """
+    pre: len(cs) <= L and (PIN is None or (len(cs) >= 1 and cs[0] == PIN) or (len(cs) == 0 and PIN == 0))
+    post: _
+    """
+    return hs.run_path(_ctxref_body, (cs,), corner=lambda cs: len(cs) == L and hs.sel(cs[L - 1], K) == K - 1)
+
+
 def worker_extra():
-    if P.get('kind') in ('lex', 'ctx'):
+    if P.get('kind') in ('lex', 'ctx', 'ctxref'):
         return {'alphabet_classes': K}
     return {}
 
@@ -174,6 +276,15 @@ def run_lemma(job):
                 cb = lexer.callback.get(r.name)
                 for st in strs:
                     if st.priority != r.priority:
+                        # different priority: the keyword exception must not apply (real table must not re-type the literal)
+                        u = cb
+                        while isinstance(u, CallChain):
+                            u = u.callback1
+                        counts['kw_pairs'] += 1
+                        if isinstance(u, UnlessCallback) and u.scanner.fullmatch(st.pattern.value) == st.name:
+                            viol.append({'fkey': 'L-kw:%s:%s:%s:prio' % (gname, r.name, st.name),
+                                         'what': 'grammar %s: %s (priority %d) re-types matches to the string terminal %s of a different priority (%d)' %
+                                                 (gname, r.name, r.priority, st.name, st.priority)})
                         continue
                     lit = st.pattern.value
                     sol = z3.Solver()
@@ -238,7 +349,7 @@ def disjoint_grammars():
 def plan(tier, seed):
     quick = tier == 'quick'
     slices = []
-    Ks = {'kwid': 12, 'prio': 5, 'eqw': 6, 'ci': 10}
+    Ks = {'kwid': 12, 'prio': 5, 'prio2': 9, 'eqw': 6, 'ci': 10}
     budget = 60 if quick else 1200
     for g, k in Ks.items():
         for by in (False, True):
@@ -271,6 +382,22 @@ def plan(tier, seed):
             slices.append({'id': 'ctx:%s:L%d%s' % (g, Lg, '' if pin is None else ':pin%d' % pin), 'func': 'ctx',
                            'params': {'kind': 'ctx', 'g': g, 'L': Lg, 'pin': pin}, 'timeout': int(est * 3 + 40), 'twin': pin in (None, k - 1),
                            'bound': {'chars': Lg, 'classes': k}})
+    for g in ('kw', 'letx', 'lines'):
+        k = TK[g]
+        Lg = (2 if k > 9 else 3) if quick else (3 if k > 9 else 5)
+        if g == 'kw':
+            Lg += 1     # "if if" style inputs need 5 characters: use token-friendly length where affordable
+        npaths = sum(k ** n for n in range(Lg + 1))
+        pins = [None] if npaths * 0.12 <= budget else list(range(k))
+        for pin in pins:
+            est = (npaths if pin is None else npaths / k) * 0.12
+            slices.append({'id': 'ctxref:%s:L%d%s' % (g, Lg, '' if pin is None else ':pin%d' % pin), 'func': 'ctxref',
+                           'params': {'kind': 'ctxref', 'g': g, 'L': Lg, 'pin': pin}, 'timeout': int(est * 3 + 40), 'twin': pin in (None, k - 1),
+                           'bound': {'chars': Lg, 'classes': k}})
+    for g, nlex in (('kw', 7), ('letx', 6)):
+        Lx = 4 if quick else 5
+        slices.append({'id': 'ctxref:%s:lexemes:L%d' % (g, Lx), 'func': 'ctxref', 'params': {'kind': 'ctxref', 'g': g, 'L': Lx, 'domain': 'lexemes'},
+                       'timeout': 400 if quick else 2400, 'bound': {'lexemes': Lx, 'kinds': nlex}})
     lemmas = [{'name': 'L-kw:unless-table', 'kind': 'kw', 'timeout': 600}, {'name': 'L-disj:regexp-terminals', 'kind': 'disj', 'timeout': 600}]
     meta = {
         'rule': 'lex/ctx: one path per class-string; many: one path per lexeme sequence; lemmas: one z3 query per terminal pair',
